@@ -1,2 +1,226 @@
-(* C18 — property theorems (stub). *)
-From Klog Require Import Base.Prelude.
+(* C18 — colour and styling never change what is printed.
+   Property theorems only; each is closed by [exact <lemma>] and followed by Print Assumptions.
+
+   Vocabulary (defined in Model/Styler.v, Model/Table.v, Proofs/Styler.v, Proofs/Table.v):
+   - [strip] is StripAllAnsiSequences (regexp \x1b\[[\d;]+m, leftmost, non-overlapping);
+     [vis_len s] = rune count of [strip s] = the property's "number of visible characters";
+   - [sgr_seq m]: m is one complete sequence ESC [ (digits and ;)+ m;  [sgrs s]: s is a concatenation of them;
+   - [theme_ok th]: every unit a styler of theme th can emit (reset, underline, bold, prefix+code+suffix
+     for every code of its table) is a concatenation of complete sequences;
+   - a document is a list of [piece]s (Plain text | Styled props kids); [render_doc th doc] nests
+     Format / FormatAndRestore exactly like the Go code;
+   - [spans a b]: a non-empty suffix of a and a non-empty prefix of b form one complete sequence;
+   - [boundary_safe doc]: in the unstyled output no complete sequence begins before a style boundary
+     of the document and ends after it;
+   - [tidy s]: s does not end inside an incomplete escape sequence and its visible text does not end in
+     a truncated UTF-8 sequence (any valid UTF-8 text without a dangling "ESC [ 1 2" tail is tidy). *)
+From Klog Require Import Base.Prelude Base.Utf8 Model.Styler Model.Table Model.TextSer
+  Proofs.Styler Proofs.Table Proofs.TextSer.
+Open Scope nat_scope.
+
+(* ---- 1. what a styler emits ---- *)
+
+(* for every well-formed theme, everything Styler.seqs emits is a concatenation of complete SGR
+   sequences, and StripAllAnsiSequences removes it entirely *)
+Theorem C18_seqs_wellformed : forall th p, theme_ok th -> sgrs (seqs th p) /\ strip (seqs th p) = [].
+Proof. exact (fun th p H => conj (seqs_sgrs th p H) (seqs_strip th p H)). Qed.
+Print Assumptions C18_seqs_wellformed.
+
+(* the four themes of colour_theme.go are well-formed; NewStyler returns nothing else *)
+Theorem C18_themes_ok : forall name th, new_styler name = Ok th -> theme_ok th.
+Proof. exact new_styler_ok. Qed.
+Print Assumptions C18_themes_ok.
+
+(* Format only wraps: a tidy text keeps its number of visible characters under every theme *)
+Theorem C18_format_width : forall th p text, theme_ok th -> tidy text ->
+  tidy (format th p text) /\ vis_len (format th p text) = vis_len text.
+Proof. exact format_tidy. Qed.
+Print Assumptions C18_format_width.
+
+(* ---- 2. content neutrality ---- *)
+
+(* removing the sequences from the styled output gives the same text as removing them from the
+   unstyled output: for EVERY well-formed theme and every document tree *)
+Theorem C18_strip_render : forall th doc, theme_ok th -> boundary_safe doc ->
+  strip (render_doc th doc) = strip (render_doc no_colour doc).
+Proof. exact strip_render. Qed.
+Print Assumptions C18_strip_render.
+
+(* boundary_safe is exactly the weakest hypothesis: it holds iff the conclusion holds for all
+   well-formed themes (the dark theme alone already tells them apart) *)
+Theorem C18_boundary_safe_weakest : forall doc,
+  boundary_safe doc <->
+  forall th, theme_ok th -> strip (render_doc th doc) = strip (render_doc no_colour doc).
+Proof. exact boundary_safe_iff. Qed.
+Print Assumptions C18_boundary_safe_weakest.
+
+(* without it the statement is false: user text "ESC[3" directly followed by a styled "1mX" *)
+Theorem C18_strip_render_unrestricted_refuted : exists th doc,
+  theme_ok th /\ strip (render_doc th doc) <> strip (render_doc no_colour doc).
+Proof. exact (ex_intro _ dark (ex_intro _ unsafe_doc (conj dark_ok strip_render_unsafe))). Qed.
+Print Assumptions C18_strip_render_unrestricted_refuted.
+
+(* documents whose own text contains no ESC byte are always safe, and stripping the styled output
+   gives back the unstyled output itself *)
+Theorem C18_strip_render_esc_free : forall th doc, theme_ok th -> Forall esc_free_piece doc ->
+  boundary_safe doc /\ strip (render_doc th doc) = render_doc no_colour doc.
+Proof. exact (fun th doc H F => conj (esc_free_boundary_safe doc F) (strip_render_esc_free th doc H F)). Qed.
+Print Assumptions C18_strip_render_esc_free.
+
+(* strip distributes over a concatenation unless a sequence straddles the seam; in particular when the
+   left part does not end inside an incomplete sequence, and across any non-empty run of sequences *)
+Theorem C18_strip_app : forall a b,
+  (~ spans a b -> strip (a ++ b) = strip a ++ strip b) /\
+  (closed a -> strip (a ++ b) = strip a ++ strip b) /\
+  (forall s, sgrs s -> s <> [] -> strip (a ++ s ++ b) = strip a ++ strip b).
+Proof. exact (fun a b => conj (strip_app_nospan a b) (conj (strip_app_closed a b) (fun s => strip_app_sgrs a s b))). Qed.
+Print Assumptions C18_strip_app.
+
+(* strip is NOT idempotent in general: removing ESC[0m from ESC[ ESC[0m 3m leaves ESC[3m *)
+Theorem C18_strip_idempotent_refuted : exists s, strip (strip s) <> strip s.
+Proof. exact (ex_intro _ idem_witness strip_not_idempotent). Qed.
+Print Assumptions C18_strip_idempotent_refuted.
+
+(* partial: it is idempotent whenever the first pass leaves no ESC byte behind — in particular on
+   the styled rendering of every ESC-free document (missing: an exact characterisation of the
+   texts on which a second pass still finds a sequence) *)
+Theorem C18_strip_idempotent_partial :
+  (forall s, esc_free (strip s) -> strip (strip s) = strip s) /\
+  (forall th doc, theme_ok th -> Forall esc_free_piece doc ->
+     strip (strip (render_doc th doc)) = strip (render_doc th doc)).
+Proof.
+  exact (conj strip_idempotent_esc_free
+           (fun th doc H F => strip_idempotent_esc_free _
+              (eq_ind_r esc_free
+                 (eq_ind_r esc_free (esc_free_text _ (esc_free_flatten_doc doc F)) (render_doc_no_colour doc))
+                 (strip_render_esc_free th doc H F)))).
+Qed.
+Print Assumptions C18_strip_idempotent_partial.
+
+(* the output of `klog print` (TextSerialiser + serialiseRecord + Print.Run as a document tree) is
+   boundary-safe for EVERY list of records: value texts (dates, durations, ranges) contain no ESC, tags
+   start with a byte that cannot continue a sequence ('#') and do not end inside an incomplete one
+   (ESC can only stand inside a quoted value); the summary text between the tags is ARBITRARY bytes *)
+Theorem C18_print_boundary_safe : forall rs, Forall record_ok rs -> boundary_safe (print_doc rs).
+Proof. exact print_boundary_safe. Qed.
+Print Assumptions C18_print_boundary_safe.
+
+(* hence `klog print` is content-neutral under every well-formed theme.
+   partial: the full statement ranges over all six evaluation commands; the boundary-safety argument is
+   carried out in Coq for `print` only. The outputs of print --with-totals, total, report, tags and today
+   (styled parts: ESC-free values, or for tags a tag value followed by a blank or a line feed) are
+   covered by the end-to-end suite `cli`, not by a theorem *)
+Theorem C18_commands_neutral_partial : forall th rs, theme_ok th -> Forall record_ok rs ->
+  strip (render_doc th (print_doc rs)) = strip (render_doc no_colour (print_doc rs)).
+Proof. exact print_neutral. Qed.
+Print Assumptions C18_commands_neutral_partial.
+
+(* ---- 3. tables ---- *)
+
+(* NewTable + any sequence of CellL / CellR / Skip / Fill with tidy cell texts (any theme's styling, any
+   Unicode), fill patterns one visible character wide, a tidy separator, and a cell count that is a
+   multiple of the column count: Collect does not panic, prints the rows one per line, and EVERY row
+   shows exactly sum of column widths + (columns - 1) * |separator| visible characters *)
+Theorem C18_table_rows_aligned : forall cols sep ops t,
+  build cols sep ops = Ok t -> tidy sep -> Forall op_ok ops ->
+  length (t_cells t) mod t_cols t = 0 ->
+  exists rs, rows t = Ok rs /\ collect t = Ok (join nl rs ++ nl) /\
+             length rs = length (t_cells t) / t_cols t /\
+             Forall (fun r => vis_len r = sum (t_longest t) + (t_cols t - 1) * vis_len sep) rs.
+Proof. exact table_aligned. Qed.
+Print Assumptions C18_table_rows_aligned.
+
+(* what happens otherwise: every row shows the widths of the columns it has (the last row may be short) *)
+Theorem C18_table_rows : forall cols sep ops t,
+  build cols sep ops = Ok t -> tidy sep -> Forall op_ok ops ->
+  exists rs, rows t = Ok rs /\ collect t = Ok (join nl rs ++ nl) /\
+             Forall2 (fun ch r => tidy r /\ vis_len r = row_width (t_longest t) (vis_len sep) 0 (length ch))
+                     (chunk (t_cols t) (t_cells t)) rs /\
+             t_sep t = sep /\ length (t_longest t) = t_cols t /\ 1 < t_cols t.
+Proof. exact table_rows. Qed.
+Print Assumptions C18_table_rows.
+
+(* the same table under two themes (cells = optional style + tidy text): identical column widths and
+   cell counts, and with full rows every row of either rendering shows the same number of characters *)
+Theorem C18_table_theme_independent : forall th1 th2 cols sep sops t1 t2,
+  theme_ok th1 -> theme_ok th2 -> tidy sep -> Forall sop_ok sops ->
+  build cols sep (map (op_of th1) sops) = Ok t1 ->
+  build cols sep (map (op_of th2) sops) = Ok t2 ->
+  t_cols t1 = t_cols t2 /\ t_longest t1 = t_longest t2 /\ length (t_cells t1) = length (t_cells t2) /\
+  (length (t_cells t1) mod t_cols t1 = 0 ->
+   exists rs1 rs2, rows t1 = Ok rs1 /\ rows t2 = Ok rs2 /\ length rs1 = length rs2 /\
+     forall r, In r (rs1 ++ rs2) -> vis_len r = sum (t_longest t1) + (t_cols t1 - 1) * vis_len sep).
+Proof. exact table_theme_independent. Qed.
+Print Assumptions C18_table_theme_independent.
+
+(* "any Unicode cell content": a text is tidy as soon as it does not end inside an incomplete escape
+   sequence and its visible part is valid UTF-8 (Go's decoder reports no invalid byte) *)
+Theorem C18_valid_utf8_tidy : forall s, danglingb s = false -> utf8_validb (strip s) = true -> tidy s.
+Proof. exact tidy_valid. Qed.
+Print Assumptions C18_valid_utf8_tidy.
+
+(* the two preconditions are needed: three cells in two columns give rows of 3 and 1 characters;
+   a two-character fill pattern gives rows of 6 and 11 *)
+Theorem C18_table_ragged_refuted : exists t rs,
+  build 2 b!" " ragged_ops = Ok t /\ rows t = Ok rs /\ map vis_len rs = [3; 1].
+Proof. exact table_ragged. Qed.
+Print Assumptions C18_table_ragged_refuted.
+
+Theorem C18_table_wide_fill_refuted : exists t rs,
+  build 2 b!" " [OCellL b!"abc"; OCellL b!"x"; OFill b!"=-"; OFill b!"=-"] = Ok t /\ rows t = Ok rs /\
+  map vis_len rs = [6; 11].
+Proof. exact table_wide_fill. Qed.
+Print Assumptions C18_table_wide_fill_refuted.
+
+(* ---- non-vacuity ---- *)
+
+(* a summary-shaped document: subdued text with a bold tag inside, user text that ends in an ESC
+   fragment right before the tag and a text that starts with "1m" right after a quoted tag value:
+   it is boundary-safe (the '#' and the closing quote guard the boundaries) *)
+Example C18_nonvacuous_doc :
+  boundary_safe
+    [Styled (mk_props 2 0 false false)
+       [Plain (b!"caf" ++ [195; 169; 32] ++ c_esc :: b!"[3")%N;
+        Styled (mk_props 2 0 true false) [Plain (b!"#t='" ++ c_esc :: b!"[4'")%N];
+        Plain b!"1m done"];
+     Plain b!"
+"] /\ theme_ok dark /\ theme_ok basic.
+Proof. split; [apply boundary_safeb_spec; vm_compute; reflexivity|split; [exact dark_ok|exact basic_ok]]. Qed.
+
+(* a record whose summaries carry ESC fragments right next to tags meets record_ok *)
+Example C18_nonvacuous_record :
+  record_ok (mk_record b!"2024-03-15" b!"8h!"
+               [[(false, (b!"note " ++ c_esc :: b!"[3")%N); (true, (b!"#t='" ++ c_esc :: b!"[4'")%N); (false, b!"1m")]]
+               [mk_entry KDuration b!"-1h30m" [[(false, (b!"x" ++ [c_esc])%N)]; [(true, b!"#1m"); (false, [c_esc; c_lbr])]]]).
+Proof.
+  split; [apply esc_freeb_ok; reflexivity|]. split; [apply esc_freeb_ok; reflexivity|]. split.
+  - constructor; [|constructor]. constructor; [discriminate|]. constructor; [|constructor; [discriminate|constructor]].
+    intros _. apply tag_ok_hash. reflexivity.
+  - constructor; [|constructor]. split; [apply esc_freeb_ok; reflexivity|].
+    constructor; [constructor; [discriminate|constructor]|].
+    constructor; [|constructor]. constructor; [intros _; apply tag_ok_hash; reflexivity|].
+    constructor; [discriminate|constructor].
+Qed.
+
+(* Unicode cell content (2-, 3- and 4-byte characters, with an embedded complete sequence) is tidy *)
+Example C18_nonvacuous_unicode :
+  tidy (b!"caf" ++ [195; 169; 32] ++ c_esc :: b!"[1m" ++ [232; 170; 173; 240; 159; 142; 137])%N.
+Proof. apply tidy_valid; vm_compute; reflexivity. Qed.
+
+(* a table with a styled right-aligned Unicode cell, a skip and fills meets the hypotheses *)
+Example C18_nonvacuous_table :
+  tidy b!" " /\
+  Forall op_ok [OCellL b!"#tag"; OCellR (format dark (mk_props 4 0 false false) (b!"1h" ++ [195; 169])%N);
+                OSkip 1; OFill b!"="].
+Proof.
+  assert (Hsp : tidy b!" ") by (apply (tidy_ascii b!" "); repeat constructor; discriminate).
+  assert (Htag : tidy b!"#tag") by (apply (tidy_ascii b!"#tag"); repeat constructor; discriminate).
+  assert (Heq : tidy b!"=" /\ vis_len b!"=" = 1) by (apply (tidy_ascii b!"="); repeat constructor; discriminate).
+  assert (Hu : tidy (b!"1h" ++ [195; 169])%N).
+  { apply tidy_app; [apply (tidy_ascii b!"1h"); repeat constructor; discriminate|].
+    split; [reflexivity|]. change (strip [195; 169]%N) with ([195; 169] ++ [])%N.
+    constructor; [|constructor]. split; [discriminate|]. intros x. reflexivity. }
+  split; [exact Hsp|].
+  constructor; [exact Htag|]. constructor; [exact (proj1 (format_tidy dark _ _ dark_ok Hu))|].
+  constructor; [exact I|]. constructor; [exact Heq|constructor].
+Qed.
